@@ -17,7 +17,7 @@ LEVEL_RULE = (
 )
 EXHAUSTIVE_SUBDOMAINS = ["DF 0..31 x {56,112} bits x {upper,lower,mixed} for structured addresses (single-bit, all-ones, zero)"]
 ASSUMPTIONS = ["canonical form = the string icao() returns for an upper-case DF20 frame of the same address (%06X)"]
-REQUIRED = ["df%d" % d for d in range(32)] + ["ap_text_echoed_in_payload", "ap_field_boundary_value", "literal_structured_strings", "table_replies_of_strangers", "table_after_thousands_of_evictions", "table_identical_replies_two_aircraft", "case_upper", "case_lower", "case_mixed", "len56", "len112", "table_one_key",
+REQUIRED = ["df%d" % d for d in range(32)] + ["ap_text_echoed_in_payload", "ap_field_boundary_value", "literal_structured_strings", "table_replies_of_strangers", "table_two_trackers_alive", "table_after_thousands_of_evictions", "table_identical_replies_two_aircraft", "case_upper", "case_lower", "case_mixed", "len56", "len112", "table_one_key",
                                               "allcall_rejects", "df_none"]
 
 AP = (0, 4, 5, 16, 20, 21)
@@ -156,6 +156,26 @@ def m_table(ctx, case):
         if got != {k1: 101.0, k2: 101.5}:
             ctx.violation("commb-attached-to-wrong-aircraft", frames=[a1, a2, b1, b2], expected={k1: 101.0, k2: 101.5}, observed=got)
         ctx.hit("table_identical_replies_two_aircraft")
+    if case.get("twin"):
+        # two trackers alive at the same time (one per receiver): each has its OWN table
+        addr3 = addr ^ (1 << rng.randrange(24))
+        d1 = Decode()
+        a1 = "%028X" % bits.es_frame(17, 5, addr, me)
+        call(d1.process_raw, [100.0], [a1], [], [], 100.5)
+        d2 = Decode()
+        a3 = "%028X" % bits.es_frame(17, 5, addr3, me)
+        call(d2.process_raw, [100.2], [a3], [], [], 100.6)
+        b1 = "%028X" % bits.commb_frame(case["df"], rng.fill(27), rng.fill(56), addr)
+        r1 = call(d2.process_raw, [], [], [101.0], [b1], 101.5)      # receiver 2 hears a reply of receiver 1's aircraft only
+        r2 = call(d1.process_raw, [], [], [101.2], [b1], 101.6)
+        ctx.ev(4)
+        k1, k3 = "%06X" % addr, "%06X" % addr3
+        ok = r1[0] == "ok" and r2[0] == "ok" and set(d1.acs) == {k1} and set(d2.acs) == {k3} and d1.acs[k1].get("t") == 101.2 \
+            and d2.acs[k3].get("t") == 100.2
+        if not ok:
+            ctx.violation("two-trackers-share-or-lose-state", tracker1=sorted(d1.acs), tracker2=sorted(d2.acs), expected=[[k1], [k3]],
+                          t1=d1.acs.get(k1, {}).get("t"), t2=d2.acs.get(k3, {}).get("t"))
+        ctx.hit("table_two_trackers_alive")
     if case.get("churn"):
         # a long-running tracker: thousands of aircraft come and time out on ONE Decode object; afterwards a Comm-B reply of
         # an aircraft that has timed out must not create or touch an entry, and one of a freshly heard aircraft must attach
